@@ -1,6 +1,6 @@
 from typing import List
 
-from ...units import Unit, UnitEnvironment
+from ...units import Unit, Quantity, UnitEnvironment
 from .node_base import BaseNode
 from .node_select import SelectNode
 from ..solvers import NumericalSolver, FunctionSolver
@@ -51,6 +51,10 @@ class FloatNode(BaseNode, SelectNode):
         if self.value_expr: # Process expression
             with NumericalSolver(env) as s:
                 self.value_raw = s.solve(self.value_expr, self.units_raw)
+                if isinstance(self.value_raw, Quantity):   # node without units
+                    if not self.value_raw.baseunits.nodim:
+                        raise Exception("Expression result has units but the node has none:", self.code)
+                    self.value_raw = self.value_raw.value()
         # Testing validity of units
         if self.units_raw:
             with UnitEnvironment(env.units):
